@@ -67,8 +67,60 @@ def observe(obj):
         return ("raise", type(e).__name__)
 
 
-def ptable():
-    return E.lst(["(%s, %s)" % (E.nlit(i), E.pstr(t)) for i, t in enumerate(G.PATTERNS)])
+# ---- the regex MapMapper builds as the key of "patternProperties" (Schema/ToSchema.v key_pid, SchemaSrcProofs.v key_text)
+KEY_BASE = 1000000000
+
+
+def _enc_z(o):
+    return 0 if o is None else 1 + 2 * abs(o) + (1 if o < 0 else 0)
+
+
+def _enc_n(o):
+    return 0 if o is None else o + 1
+
+
+def _pair(a, b):
+    return (a + b) * (a + b + 1) // 2 + b
+
+
+def key_pid(kf):
+    """oracle id of the key regex of a Map whose key field is the String declaration kf (ToSchema.key_pid)"""
+    mn, mx, pat = kf.get("min"), kf.get("max"), kf.get("pat")
+    if (mx or 0) != 0 or (mn or 0) != 0:
+        return KEY_BASE + _pair(_enc_n(pat), _pair(_enc_z(mn), _enc_z(mx)))
+    return pat if pat is not None else 0
+
+
+def key_text(kf):
+    """f"{keys.pattern or ''}{suffix}" as MapMapper.to_schema writes it"""
+    mn, mx, pat = kf.get("min"), kf.get("max"), kf.get("pat")
+    suffix = "{%s, %s}" % (mn or "", mx or "") if (mx or mn) else ""
+    return (G.PATTERNS[pat] if pat is not None else "") + suffix
+
+
+def key_entries(f, acc=None):
+    """{id: text} of the key regexes with a length suffix in declaration f (the others are plain pattern ids)"""
+    acc = {} if acc is None else acc
+    if f.get("t") == "mapkv" and isinstance(f.get("kf"), dict) and f["kf"].get("t") == "str":
+        i = key_pid(f["kf"])
+        if i >= KEY_BASE:
+            acc[i] = key_text(f["kf"])
+    for k in ("item", "kf", "vf"):
+        if isinstance(f.get(k), dict):
+            key_entries(f[k], acc)
+    for k in ("items", "fs"):
+        for g in f.get(k) or []:
+            key_entries(g, acc)
+    return acc
+
+
+def ptable(fields=()):
+    rows = list(enumerate(G.PATTERNS))
+    keys = {}
+    for f in fields:
+        key_entries(f, keys)
+    rows += sorted(keys.items())
+    return E.lst(["(%s, %s)" % (E.nlit(i), E.pstr(t)) for i, t in rows])
 
 
 def einfo_text():
@@ -112,7 +164,7 @@ def check(rep, rnd, n=300, shard=150):
     shards = []
     for i in range(0, len(cases), shard):
         body = "Definition pats0 : vptable := %s.\nDefinition einfo0 : list (pystr * eopts) := %s.\n" % (
-            ptable(), einfo_text())
+            ptable(fields[i:i + shard]), einfo_text())
         body += "Definition cases : list vcase := %s.\n" % E.lst(["\n " + c for c in cases[i:i + shard]])
         for fn in ("view_mismatch", "src_mismatch", "model_mismatch"):
             body += "Eval vm_compute in (indices_where %s cases 0).\n" % fn
